@@ -34,22 +34,22 @@ Init == TreeInit /\ SliceInit /\ js = ToJson(SliceProj(<<ZeroSlice, ZeroSlice>>)
 
 GrowsTo(s) == IF SLen(s) = Cap(s) THEN 2 * Max(Cap(s), 4) ELSE Cap(s)
 
-Push(i, x)    == GrowsTo(sl[i]) <= MaxCap /\ SPush(i, x)
-Pop(i)        == SPop(i)
-Reserve(i, n) == SRes(i, n)
-Clear(i)      == SClr(i)
-DeepAssign(i) == Pair /\ SDeepAssign(i)
-Swap          == Pair /\ SSwap
+Rest == UNCHANGED treeVars /\ js' = ToJson(SliceProj(sl'))
+
+Push(i)       == GrowsTo(sl[i]) <= MaxCap /\ SPush(i, NextVal(qs[i])) /\ Rest    \* the harness reads the value from the target
+Pop(i)        == SPop(i) /\ Rest
+Reserve(i, n) == SRes(i, n) /\ Rest
+Clear(i)      == SClr(i) /\ Rest
+DeepAssign(i) == Pair /\ SDeepAssign(i) /\ Rest
+Swap          == Pair /\ SSwap /\ Rest
 
 Next ==
-  /\ \/ \E x \in {NextVal(qs[1])} : Push(1, x)
-     \/ Pop(1)
-     \/ \E n \in ReserveSet : Reserve(1, n)
-     \/ Clear(1)
-     \/ \E i \in 1..2 : DeepAssign(i)
-     \/ Swap
-  /\ UNCHANGED treeVars
-  /\ js' = ToJson(SliceProj(sl'))
+  \/ Push(1)
+  \/ Pop(1)
+  \/ \E n \in ReserveSet : Reserve(1, n)
+  \/ Clear(1)
+  \/ \E i \in 1..2 : DeepAssign(i)
+  \/ Swap
 
 CapBound == \A i \in 1..2 : Cap(sl[i]) <= MaxCap
 =============================================================================
